@@ -467,6 +467,42 @@ class DocGen(object):
         return doc
 
 
+def parser_doc(rng, name):
+    """A text on which the individual parser object `name` (c09.PARSER_NAMES) has something to do."""
+    g = DocGen(rng, ['K1'])
+    tail = rng.choice(['', ' tail', '{z}', ' % c\n'])
+    if name in ('verbdelim', 'stdarg-v'):
+        return g.arg('v', 2).lstrip() + tail
+    if name == 'verbbrace':
+        return g.arg('v{}', 2).lstrip() + tail
+    if name == 'charsgroup':
+        return rng.choice(['{a {b} c}', '{x % c\ny}', '{p{q{r}}s}', '{}']) + tail
+    if name == 'commalist':
+        return rng.choice(['{a,b,{c,d}}', '{x,,y}', '{one}', '{a, b % c\n,d}', '{}']) + tail
+    if name in ('multidelim', 'anygroup'):
+        return g.arg('AnyDelimited', 2).lstrip() + tail
+    if name == 'optstar':
+        return rng.choice(['*x', '+{a}', 'x', ' *']) + tail
+    if name == 'tackon':
+        return rng.choice(['\\label{a}\\tag{b} x', '\\tag{1}\\tag{2}', 'x', '\\label{l} \\label{m}']) + tail
+    if name == 'stdarg-o':
+        return rng.choice(['[o]', '[a[b]c]', 'x', '[\\mb{q}]']) + tail
+    if name == 'argsparser':
+        return rng.choice(['*[o]{m}|v| t', '{m}{a{b}c}', '[o]x+v+', '*\\mb{x}{v}']) + tail
+    if name == 'envbody':
+        return g.content(2) + '\\end{en}' + tail
+    if name == 'verbenv':
+        return rng.choice(['a{b', '\\x %\n$', 'text']) + '\\end{ev}' + tail
+    if name == 'group':
+        return '{' + g.content(2) + '}' + tail
+    if name == 'math':
+        o, c = rng.choice([('$', '$'), ('$$', '$$'), ('\\(', '\\)'), ('\\[', '\\]')])
+        return o + g.content(2, True) + c + tail
+    if name == 'optsq':
+        return rng.choice(['[' + g.content(1) + ']', 'x']) + tail
+    return g.content(2) + tail
+
+
 def faulty_variant(rng, doc):
     """Strict-mode aborts: truncate, or delete / add one delimiter."""
     x = rng.random()
